@@ -308,6 +308,9 @@ func run(c *runner.Ctx, idx int) {
 		}
 	}
 	c.Seen("encrypt_path", x.enc)
+	if cencgen.SizeSignalledByTrexOnly(cs) {
+		c.Seen("sample_size_from_trex_only_encrypted_by", fam(cs.Codec)+" "+x.enc)
+	}
 	if err != nil && encTool && !isToolError(err) {
 		c.Inconclusive("tool binary could not be started or its files not written (harness environment)")
 		return
